@@ -31,6 +31,9 @@ GM = [0.5, 3, None, 7.25]
 RM = [512, 4096, None, 1000]
 
 
+GAIN_MENU = ['2.0', None, 'n/a', '0.5', '1e1']
+
+
 PNE_SPELLINGS = [PNE, ['4.0,1.0', '2.5,0.0', '0.0,0.0', '0,0.0'], ['4.00,1', '2.50,0.00', '0,0', '0.0,0'], ['4,1.0', '2.5,0.', '0,0', '0,0']]
 
 
@@ -81,6 +84,12 @@ def cases(tier, seed):
         yield dict(kind='vendor', nch=nch, tier=tier)
     for cont in ('int sample', 'float sample', 'double sample', 'int array', 'double array'):
         yield dict(kind='lattice', container=cont, tier=tier)
+    # gains as the file states them: per linear channel a number, nothing, or something that is not a number (documented: then the gain
+    # counts as not specified, i.e. 1) -- the complete product over four linear channels around a log channel, with and without the
+    # vendor's own gain keywords
+    for vendor in (False, True):
+        for first in GAIN_MENU:
+            yield dict(kind='gainfile', vendor=vendor, first=first, tier=tier)
     yield dict(kind='refuse', tier=tier)
 
 
@@ -318,6 +327,65 @@ def run_case(c):
                 if expect_ok(res, 'vendor', what, dv, vbase, t, {j: (lambda x, g=gains[j]: x / g) for j in cols}, dict(c)):
                     res.ok('vendor', True)
             res.sample({'channels': nch, 'gains': 'CytekP01G..CytekP%02dG' % nch})
+        elif c['kind'] == 'gainfile':
+            lin = [0, 1, 3, 4]                   # column 2 is a log amplifier
+            nfile = 0
+            for rest in itertools.product(GAIN_MENU, repeat=3):
+                spec = [c['first']] + list(rest)
+                if c.get('only') and spec != c['only']:
+                    continue
+                extra = [('$P%dG' % (j + 1), g) for j, g in zip(lin, spec) if g is not None]
+                cy = {}
+                if c['vendor']:
+                    cy = {j: 3.0 + j for j in (0, 1, 2, 4)}           # none recorded for column 3
+                    extra += [('CREATOR', 'FlowJoCollectorsEdition 7.5')] + [('CytekP%02dG' % (j + 1), repr(g)) for j, g in cy.items()]
+                lay = dict(datatype='I', bits=[16] * 5, ranges=[1024] * 5, pne=['0,0', '0,0', '4,1', '0,0', '0,0'], byteord='4,3,2,1',
+                           events=[[(37 * i + 11 * j) % 1024 for j in range(5)] for i in range(12)] + [[0] * 5, [1023] * 5], extra=extra)
+                pg = os.path.join(scratch(), 'c03_gain.fcs')
+                buf, _ = fcsgen.build(lay)
+                with open(pg, 'wb') as f:
+                    f.write(buf)
+                one = dict(c, only=list(spec))
+                what0 = 'sample with $PnG of the linear channels 1,2,4,5 = %r%s' % (spec, ' and CytekPnnG for channels 1,2,3,5' if c['vendor'] else '')
+                try:
+                    dg = FlowCal.io.FCSData(pg)
+                    gl = list(dg.amplifier_gain())
+                except Exception as e:
+                    res.violation('gainfile:load-raises:%s' % type(e).__name__, '%s: loading / amplifier_gain() raised %s: %s' % (what0, type(e).__name__, e), one)
+                    continue
+                nfile += 1
+                want = [None] * 5
+                for j, g in zip(lin, spec):
+                    if g is None:
+                        want[j] = cy.get(j)
+                    else:
+                        try:
+                            want[j] = float(g)
+                        except ValueError:
+                            want[j] = None
+                if 2 in cy:
+                    want[2] = cy[2]
+                if gl != want:
+                    res.violation('gainfile:gains', '%s: amplifier_gain() = %r, the keywords say %r' % (what0, gl, want), one)
+                    continue
+                gbase = np.array(dg.view(np.ndarray))
+                laws = {j: (lambda x, g=(want[j] or 1.0): x / g) for j in lin}
+                laws[2] = lambda x: 10 ** (4.0 * x / 1024.0)
+                ok = True
+                for req, cols in [(None, [0, 1, 2, 3, 4]), ([4, 3, 2, 1, 0], [0, 1, 2, 3, 4]), (['CH5', 'CH1'], [4, 0])] + [(j, [j]) for j in range(5)]:
+                    what = 'to_rfi(%s, %r)' % (what0, req)
+                    try:
+                        t = to_rfi(dg, req)
+                    except Exception as e:
+                        res.violation('gainfile:raises:%s' % type(e).__name__, '%s raised %s: %s' % (what, type(e).__name__, e), one)
+                        ok = False
+                        break
+                    if not expect_ok(res, 'gainfile', what, dg, gbase, t, {j: laws[j] for j in cols}, one):
+                        ok = False
+                        break
+                if ok:
+                    res.ok('gainfile', True)
+            res.sample({'gain spellings': GAIN_MENU, 'files': nfile, 'vendor keywords': c['vendor']})
         elif c['kind'] == 'narrow':
             # events held in 8- and 16-bit unsigned types, every value of the type's upper half included; settings given
             # as Python ints, floats, or taken from the file
